@@ -39,6 +39,7 @@ def make_stub_solver(dt, adaptive, dt_min, rtol=0.0, atol=0.0, keyed=False):
             k = len(self.log)
             y1 = fresh_state(f"Y{k}", value=0.1 * (k + 1))
             e1 = fresh_state(f"X{k}", value=-0.1 * (k + 1))
-            self.log.append(dict(t0=t0, t1=t1, y0=y0, extra0=extra0, y1=y1, extra1=(e1,)))
-            return y1, (e1,)
+            ex = (e1,)
+            self.log.append(dict(t0=t0, t1=t1, y0=y0, extra0=extra0, y1=y1, extra1=ex))
+            return y1, ex
     return StubSolver()
